@@ -1078,3 +1078,22 @@ func derivesFromField(v ssa.Value, field string, depth int) bool {
 	}
 	return false
 }
+
+// findSwitchesAll returns every expression switch of a function.
+func findSwitchesAll(fd *FuncDecl) []*ast.SwitchStmt {
+	return findSwitches(fd.Decl.Body, func(*ast.SwitchStmt) bool { return true })
+}
+
+// firstCaseConst returns the name of the first constant label of a case clause.
+func firstCaseConst(pkg *packages.Package, st ast.Stmt) string {
+	cc, ok := st.(*ast.CaseClause)
+	if !ok {
+		return ""
+	}
+	for _, e := range cc.List {
+		if k := constOf(pkg.TypesInfo, e); k != nil {
+			return k.Name()
+		}
+	}
+	return ""
+}
